@@ -70,6 +70,14 @@ let parse_ev (op : string) : sim_ev =
   | ["ip6"; edst; esrc; src; dst; hop; "ns"; tgt; ll] ->
       SRx (RxV6 (z_of_hex edst, z_of_hex esrc, ip_raw src, ip_raw dst, zs hop,
                  P6Ns (ip_raw tgt, hwopt ll)))
+  | ["r154"; panok; ldst; lsrc; src; dst; hop; "echo"] ->
+      SRx (Rx154 (panok = "1", z_of_hex ldst, z_of_hex lsrc, ip_raw src, ip_raw dst, zs hop, P6Echo))
+  | ["r154"; panok; ldst; lsrc; src; dst; hop; "na"; tgt; ll; ovr] ->
+      SRx (Rx154 (panok = "1", z_of_hex ldst, z_of_hex lsrc, ip_raw src, ip_raw dst, zs hop,
+                  P6Na (ip_raw tgt, hwopt ll, ovr = "1")))
+  | ["r154"; panok; ldst; lsrc; src; dst; hop; "ns"; tgt; ll] ->
+      SRx (Rx154 (panok = "1", z_of_hex ldst, z_of_hex lsrc, ip_raw src, ip_raw dst, zs hop,
+                  P6Ns (ip_raw tgt, hwopt ll)))
   | ["rtdef4"; g] -> SRtDef4 (ip_raw g)
   | ["rtdef6"; g] -> SRtDef6 (ip_raw g)
   | ["rtrmdef4"] -> SRtRmDef4
